@@ -84,7 +84,74 @@ func membershipGuard(b *ssa.BasicBlock, cs ssa.Value) (list ssa.Value, ok bool) 
 			return lst, true
 		}
 	}
+	if l, ok := membershipGuardHelper(b, cs); ok {
+		return l, true
+	}
 	return membershipGuardSet(b, cs)
+}
+
+// membershipGuardHelper accepts the membership loop moved into a small predicate of the repository,
+// `contains(list, sender) bool`: block b is reached on its false outcome, and inside the predicate `true` is returned
+// only on the equal edge of sender.GetPeerEndpointID() == list[i]. The list is the argument of the call.
+func membershipGuardHelper(b *ssa.BasicBlock, cs ssa.Value) (list ssa.Value, ok bool) {
+	for _, c := range core.DominatingConds(b) {
+		call, isCall := c.V.(*ssa.Call)
+		if !isCall || c.True {
+			continue
+		}
+		f := call.Common().StaticCallee()
+		if f == nil || !core.IsRepo(f) || f.Blocks == nil || len(f.Blocks) > 16 || f.Signature.Recv() != nil {
+			continue
+		}
+		csIdx, listIdx := -1, -1
+		for i, a := range call.Common().Args {
+			if a == cs {
+				csIdx = i
+			}
+			if isEIDSlice(a.Type()) {
+				listIdx = i
+			}
+		}
+		if csIdx < 0 || listIdx < 0 {
+			continue
+		}
+		pcs, plist := ssa.Value(f.Params[csIdx]), ssa.Value(f.Params[listIdx])
+		nTrue, good := 0, true
+		for _, rv := range core.ReturnValues(f, 0) {
+			if core.IsBoolConst(rv.V, false) {
+				continue
+			}
+			if !core.IsBoolConst(rv.V, true) {
+				good = false
+				continue
+			}
+			nTrue++
+			found := false
+			for _, pc := range core.DominatingConds(rv.At.Block()) {
+				bo, isB := pc.V.(*ssa.BinOp)
+				if !isB || bo.Op != token.EQL || !pc.True {
+					continue
+				}
+				for _, pair := range [][2]ssa.Value{{bo.X, bo.Y}, {bo.Y, bo.X}} {
+					if !isPeerIDOf(pair[0], pcs) {
+						continue
+					}
+					if ld, isL := pair[1].(*ssa.UnOp); isL && ld.Op == token.MUL {
+						if ia, isIA := ld.X.(*ssa.IndexAddr); isIA && ia.X == plist {
+							found = true
+						}
+					}
+				}
+			}
+			if !found {
+				good = false
+			}
+		}
+		if good && nTrue > 0 {
+			return call.Common().Args[listIdx], true
+		}
+	}
+	return nil, false
 }
 
 // membershipGuardSet accepts the other way of writing the membership test: an index (map keyed by endpoint ID) built
